@@ -40,6 +40,8 @@ claimed = {
          "Real/Int arithmetic; automatic harvest, automatic N and the crop switch are outside.", "A3 C16"),
  "C18": ("Assignment part of ReadCropParamYml lifted; for every overridable base, stage and partition parameter: state after file+override equals state after reading the edited parameter set, or equals the no-override state (rejected as a whole).",
          "yaml.Unmarshal replaced by an arbitrary parameter set with 2 organs x 2 stages; 'results' reduced to the parameter state handed to the crop model.", "A3 C18"),
+ "C14": ("readConfig / commandlineOverride (real code) executed symbolically with every scalar key of Config present or absent on the batch line under its own symbolic boolean and with a symbolic value, a configuration file that exists or not and sets an arbitrary subset of the keys to arbitrary values, and a key that does not exist: for every key the effective value (and the run state derived from it) is the batch-line value, else the file value, else the default; ascending and descending map iteration order; token loop of Run lifted: key=value tokens in 16 orders with symbolic digits give the value used.",
+         "reflect is the executor's own model of the subset used (DESIGN A1); yaml.Unmarshal is replaced by a harness model that writes the planned keys through reflect and the real UnmarshalYAML methods; co-simulated against the real yaml/reflect libraries on solver models; string keys from four candidate families.", "A3 C14"),
  "C09": ("Reduced to the parts of PhytoOut that can be cut out as regions: the development stage index never decreases, advances by at most one and only when the stage's temperature sum is reached, never beyond the last stage, and records the phenology day; the rooting depth after a day is within the profile and the soil's root limit for any value of the root function.",
          "Organ masses, LAI, assimilate pool, N concentrations and stress factors (the growth part: ~60 transcendental calls, quotients of season-long sums) are outside; root() stubbed by arbitrary results.", "A3 C09"),
 }
@@ -79,7 +81,7 @@ m = {
   "add_only": True
  },
  "engines": [{"name": "symgo", "path": "/verif/engine", "serves_properties": [c["property_id"] for c in checks],
-              "kind_free_text": "symbolic executor for go/ssa (bounded, merged, unwinding assertions) emitting SMT-LIB2 for z3 4.8.12 / cvc5 1.0.3 / cvc5 1.4 (python wheel)"}],
+              "kind_free_text": "symbolic executor for go/ssa (bounded, merged, unwinding assertions) emitting SMT-LIB2 for z3 4.8.12 / z3 5.1.0 / cvc5 1.0.3 / cvc5 1.4 (python wheel)"}],
  "checks": checks,
  "not_applicable": na,
  "notes": "exit 0 = all obligations discharged; exit 1 = replay-confirmed violation; exit 3 = inconclusive (solver unknown, unsupported construct, vacuous obligation). Repairs of genuine defects in /repo are 'fix:' commits listed in known_findings.json."
